@@ -21,3 +21,7 @@ impl ApiMessage {
         }
     }
 }
+
+#[cfg(all(test, saito_verif))]
+#[path = "/verif/replay/in_crate/api_message.rs"]
+mod verif_replay;
